@@ -6,7 +6,7 @@ RULE = ("seeded random validated models; partial / interval-valued interpretatio
         "outside declared bounds, sub-proposition ids with constants or (0,1)); evaluate_propositions compared with the "
         "model, and every returned interval tested against up to 200 (quick) completions with an independent evaluator; "
         "equation_bounds / is_tautology / is_contradiction of every node compared with the model and with an enumeration "
-        "of the children's boxes (<= 5000 points); non-trivial = has a compound child or an integer leaf")
+        "of the children's boxes (<= 5000 points), on a fresh object and again after an in-place evaluate that names sub-proposition ids; non-trivial = has a compound child or an integer leaf")
 ASSUMPTIONS = ["validated, reference-free models", "evaluate is called on deep copies (finding F-C09a)"]
 
 
@@ -44,6 +44,23 @@ def do_case(ctx, inp):
                                                                "interpretation": interp_json(I)})
                 return
     # flags of every compound node (pre-order, as the model walks)
+    nf = len(ctx.failures)
+    ctx.op({"op": "flags", "t": t}, {"flags": read_flags(ctx, o)})
+    if len(ctx.failures) > nf:
+        return
+    # the same on a long-lived object: flags were read, then the object is evaluated in place (which, by known finding
+    # F-C09a, rewrites the variables of the sub-propositions the dictionary names), then the flags are read again —
+    # they must describe the object as it is now, not as it was when first asked
+    if any(k not in lv for k in I):
+        o.evaluate_propositions(render_interp(ctx.rng, I))
+        t2 = snap(o)
+        ctx.tags["flags-reread-after-in-place-evaluate"] += 1
+        if t2 != t:
+            ctx.tags["flags-reread-object-changed"] += 1
+        ctx.op({"op": "flags", "t": t2}, {"flags": read_flags(ctx, o, "after an in-place evaluate naming sub-proposition ids")}, label="flags-reread")
+
+
+def read_flags(ctx, o, when="on a fresh object"):
     fl = []
     for n in node_objs(o):
         eb = n.equation_bounds
@@ -55,15 +72,15 @@ def do_case(ctx, inp):
         if total <= 5000:
             vals = [int(n.sign) * sum(p) - int(n.value) for p in itertools.product(*[range(lo, hi + 1) for lo, hi in kb])]
             if (min(vals), max(vals)) != (int(eb[0]), int(eb[1])):
-                ctx.fail("equation-bounds-not-exact", {"id": n.id, "reported": [int(eb[0]), int(eb[1])], "exact": [min(vals), max(vals)]})
+                ctx.fail("equation-bounds-not-exact", {"id": n.id, "reported": [int(eb[0]), int(eb[1])], "exact": [min(vals), max(vals)], "when": when})
             if bool(n.is_tautology) != all(v >= 0 for v in vals) or bool(n.is_contradiction) != all(v < 0 for v in vals):
                 ctx.fail("flag-wrong", {"id": n.id, "taut": bool(n.is_tautology), "contra": bool(n.is_contradiction),
-                                        "range": [min(vals), max(vals)]})
-    ctx.op({"op": "flags", "t": t}, {"flags": fl})
+                                        "range": [min(vals), max(vals)], "when": when})
+    return fl
 
 
 def run(ctx):
-    n_models = (60 if ctx.quick else 800) * (3 if ctx.search else 1)
+    n_models = (200 if ctx.quick else 1500) * (3 if ctx.search else 1)
     for _ in range(n_models):
         a, o, t = gen_valid(ctx.rng, ctx.quick)
         for _ in range(3):
